@@ -374,6 +374,28 @@ for _v in ('v311', 'v5'):
       bounds='CONNACK (accepted, session present symbolic) received by a *connected* persistent %s client with one stored QoS1 PUBLISH in flight' % _v, symbolic='i, session present, timer configuration',
       encodes=['process_recv_%s_connack' % ('v3_1_1' if _v == 'v311' else 'v5_0')])
 
+# measured peak memory -> class (S 3 GB, M 8, L 16, XL 28); steps not listed default to L until measured
+_MEM = {
+    'S': ['st_send_pingreq_v311_client', 'st_send_pingreq_v5_client', 'st_send_disconnect_v311_client', 'st_send_disconnect_v5_server', 'st_timer_fired_v311_client',
+          'st_timer_fired_v5_client_pingresp', 'st_timer_fired_server_pingreq_recv', 'st_recv_pingresp_client', 'st_recv_connack_while_connected_v311', 'c17_can_receive_table',
+          'c14_total_size_kernel', 'st_handled_export_restore'],
+    'M': ['st_recv_connect_v5_server', 'st_recv_connect_v311_server', 'st_send_puback_v5_limit', 'st_send_pubrec_v5_handled', 'st_reuse_client_v311_clean_connect',
+          'st_send_publish_v5_automap_limit', 'st_recv_publish_q2_v311', 'st_send_publish_v311_q1_persistent'],
+    'L': ['st_notify_closed_any', 'st_id_calls_total', 'st_recv_puback_v5_flow', 'st_send_publish_v311_never_dropped', 'st_recv_puback_v311_persistent', 'st_send_publish_v5_flow',
+          'st_send_publish_v5_limit', 'st_recv_connect_v5_server_tam'],
+    'XL': ['st_dispatch_client_v311', 'st_dispatch_server_v311', 'st_dispatch_client_v5', 'st_dispatch_server_v5', 'st_undetermined_first_packet', 'st_recv_publish_v5_alias',
+           'st_recv_publish_v5_recv_max', 'st_send_connack_v5_resume_count', 'st_send_publish_v5_alias_resolve', 'st_send_publish_v5_manual_alias_bind'],
+}
+_known = set(x for v in _MEM.values() for x in v)
+for _h in HARNESSES:
+    if _h['file'] in ('core', 'c11') and _h['name'] not in _known and _h['name'].startswith(('st_', 'c11_cell')):
+        _h['mem'] = 'L'
+for _c, _ns in _MEM.items():
+    for _n in _ns:
+        for _h in HARNESSES:
+            if _h['name'] == _n:
+                _h['mem'] = _c
+
 # =============================================================================== final tier table
 # (overrides the per-harness `props` given above: one place to see what each property's check runs)
 QUICK = {
